@@ -307,7 +307,7 @@ func engineNilRead(rep *Report) {
 			}
 		}
 		// (e,f,g) struct-level nils inside a parent of this type
-		c.structNils(s, d)
+		guardCase(rep, "C09", "nilread", tn, 0, func() { c.structNils(s, d) })
 	}
 }
 
